@@ -66,7 +66,7 @@ INPUTS = {
     "I": ["CCO>>CC=O", "C>>C"],  # the rows of G in another order
 }
 BATCH_SIZES = [None, 1, 2]
-FORMS = ["str", "dict"]
+FORMS = ["str", "dict", "dict2"]  # dict2: the same reactions with other values in the extra columns
 POINTS = ["beforeWrite", "tmpPrefix", "tmpComplete", "afterRename"]
 
 
@@ -303,6 +303,8 @@ class World:
         rx = INPUTS[name]
         if form == "str":
             return list(rx)
+        if form == "dict2":
+            return [{rc: r, "note": "other-%d" % (7 * i), "tag": ["y", -i, 1.5]} for i, r in enumerate(rx)]
         return [{rc: r, "note": i, "tag": ["x", i, 0.5]} for i, r in enumerate(rx)]
 
     def batches_of(self, ci, name, form, bs):
@@ -647,6 +649,8 @@ REGRESSION = {
     "same-rows-other-order": [R(0, "B"), R(0, "H"), R(0, "G"), R(0, "I"), R(0, "H", 2), R(0, "B", 2)],
     # what is reported (`columns`) is not part of the entry: narrow-then-wide and wide-then-narrow over dictionary inputs
     "columns-widened-later": [R(0, "C", form="dict"), R(7, "C", form="dict"), R(0, "C", form="dict"), R(7, "B", 2, form="dict"), R(0, "B", 2, form="dict")],
+    # a row is all of its columns: the same reactions with other values in the pass-through columns are another batch
+    "same-reactions-other-metadata": [R(7, "C", form="dict"), R(7, "C", form="dict2"), R(7, "C", form="dict"), R(7, "B", 2, form="dict2"), R(7, "B", 2, form="dict")],
     "column-names": [R(0, "A"), R(3, "A"), R(4, "A"), R(3, "A", form="dict"), R(0, "A", form="dict")],
     # f8ec0af: a truncated entry made the next run raise JSONDecodeError
     "truncated-entry": [R(0, "A"), T(0, "A", 0, "half"), R(0, "A"), R(0, "A")],
